@@ -148,11 +148,26 @@ def _limits(mem_gb):
     return f
 
 
+RUNNING = set()
+
+
+def kill_children(*_):
+    """SIGTERM / SIGINT handler of the driver: take the verifier processes down with it"""
+    import signal
+    for pid in list(RUNNING):
+        try:
+            os.killpg(pid, signal.SIGKILL)
+        except Exception:
+            pass
+    os._exit(2)
+
+
 def run(cmd, cwd, timeout, mem_gb=12, out=None):
     import signal
     t0 = time.time()
     p = subprocess.Popen(cmd, cwd=cwd, stdout=subprocess.PIPE, stderr=subprocess.STDOUT,
                          preexec_fn=_limits(mem_gb))
+    RUNNING.add(p.pid)
     try:
         o, _ = p.communicate(timeout=timeout)
         rc, txt = p.returncode, o.decode("utf-8", "replace")
@@ -163,6 +178,7 @@ def run(cmd, cwd, timeout, mem_gb=12, out=None):
             pass
         o, _ = p.communicate()
         rc, txt = -9, (o or b"").decode("utf-8", "replace") + "\nTIMEOUT"
+    RUNNING.discard(p.pid)
     if out:
         open(out, "w").write(txt)
     return rc, txt, time.time() - t0
@@ -225,6 +241,14 @@ def build_goto(job, root, wdir, extra_defs=()):
         if rc:
             raise Undecided("generate-function-body failed: " + txt[-1000:])
         a = a2
+    if job.get("fp_valueset"):
+        # resolve function pointers by a flow-insensitive points-to analysis instead of CBMC's
+        # default "every function of a compatible type" (sound: every assigned target is kept)
+        a3 = os.path.join(wdir, "a_fp.gb")
+        rc, txt3, _ = run(["goto-instrument", "--value-set-fi-fp-removal", a, a3], wdir, 600, mem_gb=job.get("mem", 12))
+        if rc:
+            raise Undecided("value-set function pointer removal failed: " + txt3[-800:])
+        a = a3
     enforce, replace = job.get("enforce", []), job.get("replace", [])
     if not (enforce or replace or job.get("loops")):
         return a, " ".join(cmd[:1] + ["…"])
